@@ -61,7 +61,7 @@ def guards(body):
         if not any(t['k'] == 'drop' and t['p'] == [l] for _, t in body.terms()):
             # moved on (e.g. _22 -> _10): the final owner is the one that is dropped
             continue
-        e = F.Expr.of_local(body, l, 14)
+        e = F.Expr.of_local(body, l, 30)
         acq = None
         for x in e.walk():
             if x.k == 'call' and LOCK_ACQ.search(x.a):
@@ -891,10 +891,12 @@ def main_loop_with(body, call_rx, depth=3):
     return best
 
 
-def classify_exits(body, loop, sink_blocks, queue_names):
+def classify_exits(body, loop, sink_blocks, queue_names, queue_locals=None, batch_locals=None, result_locals=None):
     """for each exit edge of `loop` from which a sink block is reachable, say why the loop may stop:
     returns [(kind, cond, line)], kind in
-      queue-empty | batch-empty | budget | stagnation | other"""
+      queue-empty | batch-empty | budget | stagnation | other
+    The containers are recognised by alias class when given (queue_locals / batch_locals / result_locals), by debug name
+    otherwise."""
     h, nodes = loop
     out = []
     edges = body.edge_nodes()
@@ -923,12 +925,20 @@ def classify_exits(body, loop, sink_blocks, queue_names):
                 inner = c.expr.mentions_call(r'::is_empty$')
                 arg = inner.b[0] if inner is not None and inner.b else None
                 names = [x.b for x in arg.walk() if x.k in ('let', 'local') and x.b] if arg is not None else []
-                if any(nm in queue_names for nm in names):
+                locs = expr_locals(arg) if arg is not None else set()
+                if (queue_locals is not None and locs & queue_locals) or (queue_locals is None and any(nm in queue_names for nm in names)):
                     kind = 'queue-empty'
-                elif any('batch' in nm for nm in names):
+                elif (batch_locals is not None and locs & batch_locals) or (batch_locals is None and any('batch' in nm for nm in names)):
                     kind = 'batch-empty'
-            elif c.kind == 'bool' and c.truth and re.search(r'PartialEq.*::eq\(', t) and 'snapshot' in _names(c.expr):
-                kind = 'stagnation'
+            elif c.kind == 'bool' and c.truth and re.search(r'PartialEq.*::eq\(', t):
+                if result_locals is not None:
+                    sl = set()
+                    for l in expr_locals(c.expr):
+                        sl |= body.backward_locals([l], limit=2500)
+                    if sl & result_locals:
+                        kind = 'stagnation'
+                elif 'snapshot' in _names(c.expr):
+                    kind = 'stagnation'
         out.append((kind, c, ln))
     return out
 
@@ -980,3 +990,159 @@ def every_iteration_passes(body, target_bb, extra_pass=()):
     n = len(body.blocks)
     wb = back[0] if back[0] < n else body.cfg()[2][back[0]][0]
     return False, body.line_of_block(wb), 'an element can be skipped (next iteration reached from line %s without passing the site)' % body.line_of_block(wb)
+
+
+# ------------------------------------------------------------------------------------------------
+# container identity without names: alias classes of locals
+# ------------------------------------------------------------------------------------------------
+
+ALIAS_CALL = re.compile(r'(ops::Deref>::deref|ops::DerefMut>::deref_mut|ops::Deref::deref|ops::DerefMut::deref_mut|convert::AsMut<.*>>::as_mut|'
+                        r'convert::AsRef<.*>>::as_ref|borrow::BorrowMut<.*>>::borrow_mut|borrow::Borrow<.*>>::borrow|Vec::<.*>::as_mut_slice|'
+                        r'Vec::<.*>::as_slice|IntoIterator>::into_iter|Vec::<.*>::iter|Vec::<.*>::iter_mut|Vec::<.*>::drain|VecDeque::<.*>::iter|'
+                        r'mem::take|Option::<.*>::unwrap_or_default)$')
+
+
+def alias_classes(body):
+    """union-find over locals: x ~ y when x is a move / copy / reference / reborrow of y (no field projection), the result of a
+    transparent call on y (deref, as_mut, iter ..), or — in an inlined body — the parameter / return plumbing of a spliced
+    helper. Two locals in one class denote the same container as far as the rules are concerned."""
+    if getattr(body, '_alias', None) is not None:
+        return body._alias
+    parent = {}
+
+    def find(x):
+        while parent.get(x, x) != x:
+            parent[x] = parent.get(parent[x], parent[x])
+            x = parent[x]
+        return x
+
+    def union(a, b):
+        ra, rb = find(a), find(b)
+        if ra != rb:
+            parent[ra] = rb
+
+    def plain(pl):
+        return all(p == '*' for p in pl[1:])
+    for bi, si, s in body.stmts():
+        d = s['d']
+        r = s['r']
+        if not plain(d):
+            continue
+        src = None
+        if r['k'] in ('use', 'cast') and 'p' in r.get('o', {}):
+            src = r['o']['p']
+        elif r['k'] == 'ref':
+            src = r['p']
+        if src is not None and plain(src):
+            union(d[0], src[0])
+    for cs in body.calls():
+        if cs.dest and plain(cs.dest) and cs.args and 'p' in cs.args[0] and plain(cs.args[0]['p']) and ALIAS_CALL.search(cs.callee):
+            union(cs.dest[0], cs.args[0]['p'][0])
+    classes = {}
+    for l in range(len(body.locals)):
+        classes.setdefault(find(l), set()).add(l)
+    out = {}
+    for root, ls in classes.items():
+        for l in ls:
+            out[l] = ls
+    body._alias = out
+    return out
+
+
+def alias_of(body, seeds):
+    """the union of the alias classes of the given locals"""
+    ac = alias_classes(body)
+    out = set()
+    for l in seeds:
+        out |= ac.get(l, {l})
+    return out
+
+
+def expr_locals(e):
+    return set(x.a for x in e.walk() if x.k in ('let', 'local', 'param') and isinstance(x.a, int))
+
+
+def touches(body, e, cls):
+    """does expression e mention a local of the alias class `cls`?"""
+    return bool(expr_locals(e) & cls)
+
+
+def operand_root(op):
+    return op['p'][0] if isinstance(op, dict) and 'p' in op else None
+
+
+# ------------------------------------------------------------------------------------------------
+# what is known to hold at a program point, through the usual Option / iterator predicate idioms
+# ------------------------------------------------------------------------------------------------
+
+PRED_TRUE_SOME = re.compile(r'Option::<.*>::(filter|take_if)$')                       # Some(..) => closure returned true
+PRED_TRUE_BOOL = re.compile(r'Option::<.*>::(is_some_and)$|Result::<.*>::(is_ok_and)$|Iterator>?::(any)$|Iterator::any$')  # true => closure true (for some element)
+
+
+def closure_results(prog, closure_id):
+    """[(closure body, Expr | Cond)] — what the bool-returning closure returns (every definition of its _0)"""
+    out = []
+    cb = prog.bodies.get(closure_id)
+    if cb is None:
+        return out
+    for d in cb.defs().get(0, []):
+        if d[0] == 's':
+            e = F.Expr.of_rvalue(cb, d[3]['r'], 20)
+        else:
+            cs = F.CallSite(cb, d[1], d[3])
+            e = F.Expr('call', cs.callee, [F.Expr.of_operand(cb, a, 20) for a in cs.args], cs)
+        out.append((cb, e))
+    return out
+
+
+def true_atoms(prog, b, node):
+    """boolean expressions known to be true at CFG node `node`: [(body, Expr)]. Besides the dominating branch conditions
+    themselves this looks into `opt.filter(|x| p(x))` being Some, `opt.is_some_and(|x| p(x))` / `.map(p).unwrap_or(false)` /
+    `matches!` being true, and comparison facts (rendered as bin expressions, negated edges flipped)."""
+    out = []
+
+    def closures_in(e):
+        for x in e.walk():
+            if x.k == 'agg' and x.d == 'closure' and x.a in prog.bodies:
+                yield x.a
+
+    for c in F.dominating_conds(b, node):
+        if c.kind == 'cmp':
+            out.append((b, F.Expr('bin', c.op, c.lhs, c.rhs)))
+        elif c.kind == 'bool':
+            e = c.expr
+            if c.truth:
+                out.append((b, e))
+                m = None
+                for x in e.walk():
+                    if x.k == 'call' and (PRED_TRUE_BOOL.search(x.a) or (x.c is not None and re.search(r'iter::Iterator::any$', x.c.declared))):
+                        m = x
+                    if x.k == 'call' and re.search(r'Option::<.*>::unwrap_or$', x.a) and len(x.b) == 2 and x.b[1].const_value() is False:
+                        mm = x.b[0].mentions_call(r'Option::<.*>::map$')
+                        if mm is not None:
+                            m = mm
+                if m is not None:
+                    for cid in closures_in(m):
+                        out += closure_results(prog, cid)
+            else:
+                out.append((b, F.Expr('un', 'Not', e)))
+        elif c.kind == 'disc' and c.variant_is(1):
+            m = c.expr.mentions_call(PRED_TRUE_SOME)
+            if m is not None:
+                for cid in closures_in(m):
+                    out += closure_results(prog, cid)
+    return out
+
+
+def atom_is_cmp(e, xpred, ops, ypred):
+    """is the (possibly let-wrapped) boolean expression a comparison X op Y in either orientation?"""
+    while e.k == 'let':
+        e = e.c
+    if e.k == 'bin' and e.a in F.CMP_NEG:
+        return cmp_is(F.Cond('cmp', op=e.a, lhs=e.b, rhs=e.c), xpred, ops, ypred)
+    if e.k == 'call' and e.c is not None and len(e.b) == 2:
+        d = e.c.declared
+        op = {'lt': 'Lt', 'le': 'Le', 'gt': 'Gt', 'ge': 'Ge', 'eq': 'Eq', 'ne': 'Ne'}.get(d.rsplit('::', 1)[-1]) if re.search(r'cmp::Partial(Ord|Eq)::', d) else None
+        if op:
+            return cmp_is(F.Cond('cmp', op=op, lhs=e.b[0], rhs=e.b[1]), xpred, ops, ypred)
+    return False
